@@ -216,8 +216,8 @@ def internal(d):
         return real_triple(d)
 
 
-def step(ctx, d, model, op, case):
-    """Apply one op to both sides and compare; returns nothing, raises Violation through ctx."""
+def step(ctx, d, model, op, case, agreement=False):
+    """Apply one op to both sides and compare; returns the new model, raises Violation through ctx."""
     import concepts
     before_triple = real_triple(d)
     before_internal = internal(d)
@@ -254,7 +254,34 @@ def step(ctx, d, model, op, case):
         ctx.check(got == want and type(got) is type(want), site + '/return', case,
                   lambda: f'{op!r} returned {got!r}, model {want!r}')
     invariants(ctx, d, m2, site, case, op)
+    if agreement:
+        context_agreement(ctx, d, m2, site, case, op)
     return m2
+
+
+_AGREE = {'n': 0}
+
+
+def context_agreement(ctx, d, model, site, case, op=None):
+    """C14: shape, fill_ratio, table string and crc32 of a definition agree with the model and with Context(*d).
+
+    Read on the SAME object after every step, so a value cached before an edit shows up as stale."""
+    import concepts
+    import fractions
+    n, m = len(model.objects), len(model.properties)
+    shape = d.shape
+    ctx.check(tuple(shape) == (n, m) and shape.objects == n and shape.properties == m, site + '/shape', case,
+              lambda: f'after {op!r}: shape {shape!r} but the table is {n} x {m}')
+    if n * m:
+        want = fractions.Fraction(len(model.cells), n * m)
+        got = d.fill_ratio
+        ctx.check(got == want, site + '/fill_ratio', case, lambda: f'after {op!r}: fill_ratio {got!r}, want {want!r}')
+    _AGREE['n'] += 1
+    if n and m and _AGREE['n'] % 8 == 0 and not set(model.objects) & set(model.properties):
+        c = concepts.Context(*d)   # every 8th call only: a Context costs ~13 kB that the bitsets registry never frees
+        ctx.check(c.shape == shape and c.fill_ratio == d.fill_ratio and c.tostring() == d.tostring() == str(d)
+                  and c.crc32() == d.crc32(), site + '/context-agreement', case,
+                  lambda: f'after {op!r}: shape / fill_ratio / tostring / crc32 differ between the definition and Context(*definition)')
 
 
 def invariants(ctx, d, model, site, case, op=None):
